@@ -282,12 +282,12 @@ theorem placeModNodes_table (st : St) (p : ModPlacement) (ns : List ModNode) (ou
           · simpa [newNodesL, hn] using b1
           · simpa [Off.nextNodes, hn] using b2
 
-theorem addInter_maxNode (m : Mol) (ty : String) (atoms : List Int) (pr : String) (v : Int) :
+theorem addInter_maxNode (m : Mol) (ty : String) (atoms : List Int) (pr : String) (v : Option Int) :
     (m.addInter ty atoms pr v).1.maxNode = m.maxNode := by
   unfold Mol.addInter
   split <;> rfl
 
-theorem addOrReplace_maxNode (m : Mol) (ty : String) (atoms : List Int) (pr : String) (v : Int) (c : List String) :
+theorem addOrReplace_maxNode (m : Mol) (ty : String) (atoms : List Int) (pr : String) (v : Option Int) (c : List String) :
     (m.addOrReplace ty atoms pr v c).1.maxNode = m.maxNode := by
   unfold Mol.addOrReplace
   simp only
@@ -318,8 +318,11 @@ theorem lookup_mem {α β} [BEq α] [LawfulBEq α] (l : List (α × β)) (a : α
     · simp only [h0] at h
       exact List.mem_cons_of_mem _ (ih h)
 
-/-- same interaction: type, atoms, version (the parameters may have been replaced) -/
-def sameKey (a b : String × Inter) : Prop := a.1 = b.1 ∧ a.2.atoms = b.2.atoms ∧ a.2.version = b.2.version
+/-- same interaction: type, atoms, version (the parameters may have been replaced).  Since the C12
+extension round `Inter.version` is `meta.get('version')` (`none` = no version key); the key the
+code compares is `meta.get('version', 0)`, i.e. `version.getD 0` -/
+def sameKey (a b : String × Inter) : Prop :=
+  a.1 = b.1 ∧ a.2.atoms = b.2.atoms ∧ a.2.version.getD 0 = b.2.version.getD 0
 
 theorem replaceFirst_keys (l l' : List (String × Inter)) (ty : String) (i : Inter) (h : replaceFirst l ty i = some l') :
     ∀ ti ∈ l, ∃ ti' ∈ l', sameKey ti' ti := by
@@ -346,7 +349,7 @@ theorem replaceFirst_keys (l l' : List (String × Inter)) (ty : String) (i : Int
         · obtain ⟨ti', h1, h2⟩ := ih r' hr ti hti
           exact ⟨ti', List.mem_cons_of_mem _ h1, h2⟩
 
-theorem addOrReplace_keys (m : Mol) (ty : String) (atoms : List Int) (pr : String) (v : Int) (c : List String) :
+theorem addOrReplace_keys (m : Mol) (ty : String) (atoms : List Int) (pr : String) (v : Option Int) (c : List String) :
     (∀ ti ∈ m.inters, ∃ ti' ∈ (m.addOrReplace ty atoms pr v c).1.inters, sameKey ti' ti)
     ∧ (m.addOrReplace ty atoms pr v c).1.edges = m.edges := by
   unfold Mol.addOrReplace
